@@ -15,7 +15,10 @@ STRENGTHENED = {
     'C17-m3', 'C16-m3', 'C11-m1', 'C11-m3', 'C19-m2', 'C19-m3', 'C13-m1',
     'C04-m1', 'C04-m3', 'C20-m1', 'C20-m3', 'C14-m1', 'C14-m2', 'C12-m2',
     'C05-m1', 'C05-m2', 'C02-m2', 'C02-m3', 'C10-r2m2', 'C10-r2m3',
-    'C06-r2m3', 'C18-r2m1', 'C18-r2m2', 'C01-r2m3'}
+    'C06-r2m3', 'C18-r2m1', 'C18-r2m2', 'C01-r2m3', 'C11-r2m3', 'C14-r2m1',
+    'C14-r2m2', 'C14-r2m3', 'C20-r2m1', 'C20-r2m2', 'C20-r2m3', 'C07-r2m2',
+    'C16-r2m2', 'C17-r2m1', 'C17-r2m2', 'C12-r2m1', 'C02-r2m2', 'C05-r2m1',
+    'C05-r2m2', 'C05-r2m3'}
 res = json.load(open(OUT)) if os.path.exists(OUT) else {}
 for f in sorted(glob.glob('/tmp/seedrun-*.out'), key=os.path.getmtime):
     for line in open(f):
